@@ -457,6 +457,9 @@ class tensor:
         data[:] =
         [ 5. 13.]
         """
+        if not (0 <= i1 < self.ndims and 0 <= i2 < self.ndims):
+            assert False, "Dimensions to contract must be in the range of self.ndims"
+
         if self.shape[i1] != self.shape[i2]:
             assert False, "Must contract along equally sized dimensions"
 
